@@ -385,7 +385,12 @@ class BaseFeatureWriter:
         feaFile = self.context.feaFile
 
         if ast.findTable(feaFile, "GDEF") is not None:
-            return ast.getGDEFGlyphClasses(feaFile)
+            classes = ast.getGDEFGlyphClasses(feaFile)
+            # a hand-written GDEF table that defines no glyph classes (ligature
+            # carets only, say) leaves them to 'public.openTypeCategories', from
+            # which the GDEF writer will generate them
+            if any(c is not None for c in classes):
+                return classes
 
         unassigned, bases, ligatures, marks, components = self.getOpenTypeCategories()
 
